@@ -663,12 +663,12 @@ def check_c11(tier, seed):
             continue
         # minimal witness: fewest scheduler steps; then try the simplest schedule (always release the first parked, 1 ns steps)
         r, text = min(items, key=lambda x: x[0]["steps"])
-        cell = dict(r["cell"], choices=r["choices"], dts=r["dts"])
-        simple = dict(r["cell"], choices=[0] * (r["steps"] + 8), dts=[1] * (r["steps"] + 8))
-        # Repo code with `select` statements (none on the unchanged tree) has a source of nondeterminism the
-        # simulator does not own: when several cases are ready Go picks one at random. Then the same decisions
-        # need not reproduce the same run; the observed violation is still real, so it is reported when it
-        # recurs in at least one of six re-executions, and the replay file says so.
+        cell = dict(r["cell"], choices=r["choices"], dts=r["dts"], sels=r.get("sels") or [])
+        simple = dict(r["cell"], choices=[0] * (r["steps"] + 8), dts=[1] * (r["steps"] + 8), sels=[])
+        # Repo code with `select` statements (none on the unchanged tree): the instrumenter makes the choice among
+        # READY cases a recorded simulator decision (R7b), but a select that blocks and then finds several cases
+        # ready at once is still resolved by Go at random. The observed violation is real either way, so with
+        # selects in repo code it is reported when it recurs in at least one of six re-executions.
         flaky_ok = bool(sc.census.get("selects"))
         attempts = 6 if flaky_ok else 2
         chosen, best = None, 0
@@ -699,7 +699,7 @@ def check_c11(tier, seed):
             raise HarnessError("C11 violation %s does not replay from its recorded decisions" % sig)
         rf = {"property": "C11", "engine": "B-bubble", "seed": seed, "tree": sc.tree_hash, "cell": chosen, "prefix": prefix, "violation": {"class": sig.split(":")[0], "sig": sig, "detail": text},
               "events": r["events"], "returned": r.get("returned"), "replays": {"attempts": attempts, "recurred": best,
-              "note": "select statements in repo code: Go's random choice among ready cases is not owned by the simulator" if flaky_ok else "exact"}}
+              "note": "select statements in repo code: ready cases are polled in a simulator-chosen order first (R7b), but when a select blocks and several cases become ready at once Go still chooses at random, so k-of-6 recurrences are accepted" if flaky_ok else "exact"}}
         path = os.path.join(rdir, "C11-%s.json" % hashlib.sha256(sig.encode()).hexdigest()[:10])
         json.dump(rf, open(path, "w"), indent=1)
         print("VIOLATION property=C11 replay=%s" % path, flush=True)
